@@ -110,7 +110,11 @@ func runC30(r *lib.Run) {
 				}
 			case len(dang) == 0 && err != nil:
 				cls := "none-dangling"
-				r.Violate("satisfied-rejected", cls+":"+strings.Join(lib.ErrClasses(err.Error()), "|"), err.Error(), w)
+				feat := cls + ":" + strings.Join(lib.ErrClasses(err.Error()), "|")
+				if strings.Contains(err.Error(), "not equal to any target nodes") {
+					feat = cls + ":leafref-reported-dangling"
+				}
+				r.Violate("satisfied-rejected", feat, err.Error(), w)
 			case len(dang) > 0:
 				r.Hit("dangling-rejected")
 				for _, l := range dang {
